@@ -106,6 +106,13 @@ CLAIMED['C16'] = ('Renderers.tla: seeded sessions of render / detach steps over 
                   'detached ones) and purity are specification operators evaluated by TLC on every step of every observed session',
                   'trusted: TLC, the partial custom renderers defined in pv/c16.py (mirrored by Renderers!CustomHandles)',
                   'DESIGN.md 2.8, 5 (C16)')
+CLAIMED['C07'] = ('Malformed.tla: 16 fault kinds applied at every line of TLC-generated documents (canonical print, lines labelled with kind, '
+                  'enclosing block and features); outcome of the parse call validated by TLC for every pair ProvablyInvalid lists',
+                  'the table of provably invalid (fault, site) pairs and the single allowed outcome are the specification; every fault is '
+                  'applied at every structural position of every document; a returned database is reported as a leak with the text',
+                  'trusted: TLC, line labelling and fault application in pv/c07.py; only the listed fault kinds are covered (no DBML '
+                  'recogniser in the specification)',
+                  'DESIGN.md 4.4, 5 (C07)')
 NOT_YET = {}
 
 def main():
